@@ -33,6 +33,7 @@ NA = [
  ("C20", "data-race freedom under real goroutine interleavings: the engine is single-threaded and models neither a scheduler nor the memory model (concurrency is a declared weak target of this technique family)"),
 ]
 PENDING = {
+ "C12": "attempted and withdrawn: every Date path goes through Go's time package (Unix/In/abs/absDate: chains of 64-bit multiply/divide/modulo by constants, with data-dependent normalisation branches) after a floating-point split t -> (t/1000, t%1000); with the time value symbolic none of cvc5, cvc5 --solve-bv-as-int=sum, z3 4.8.12 or z3 5.1.0 decided even the branch-feasibility queries of the engine-generated encoding within 200 s per query, for windows as small as |t| <= 2^17 s (harness kept in attic/c12_date.go.txt); concrete instants would be enumeration, not a solver verdict",
 }
 
 m = {
